@@ -40,6 +40,32 @@ func newInterp(c *Ctx, w *absint.World) *absint.Interp {
 	}
 }
 
+// inlineHelpers: unexported plain functions (no methods) of the given package
+// are executed rather than treated as opaque, so that extracting a helper from
+// an analysed function does not change the extracted table; `except` names
+// (FnRef) stay opaque (marked kernels, modelled functions).
+func inlineHelpers(c *Ctx, pkgShort string, except ...string) func(f *ssa.Function) bool {
+	ex := map[string]bool{}
+	for _, e := range except {
+		ex[e] = true
+	}
+	return func(f *ssa.Function) bool {
+		if f == nil || f.Blocks == nil || !c.P.InPkg(f, pkgShort) {
+			return false
+		}
+		if ex[c.P.FnRef(f)] {
+			return false
+		}
+		if f.Parent() != nil {
+			return true // local closures
+		}
+		if f.Signature.Recv() != nil {
+			return false
+		}
+		return f.Object() != nil && !f.Object().Exported()
+	}
+}
+
 // enumConstsOf returns the declared constants of a named type, sorted by value.
 var enumConstsMemo = map[types.Type][]*types.Const{}
 
@@ -266,6 +292,7 @@ func ruleCmp2(c *Ctx) {
 			_, err := absint.Enumerate(50, func(w *absint.World) {
 				it := newInterp(c, w)
 				ternaryModels(c, it.Models)
+				it.InlinePred = inlineHelpers(c, "lib/value")
 				it.Models["lib/value.CompareCombinedly"] = func(it *absint.Interp, call ssa.CallInstruction, a []absint.Val) (absint.Val, bool) {
 					return absint.Const(k.Val(), crT), true
 				}
@@ -406,10 +433,7 @@ func ruleCmp3(c *Ctx) {
 	worlds, err := absint.Enumerate(200000, func(w *absint.World) {
 		it := newInterp(c, w)
 		mathModels(it.Models)
-		it.InlinePred = func(f *ssa.Function) bool {
-			n := c.P.FnRef(f)
-			return n == "lib/value.compareInteger" || n == "lib/value.compareFloat"
-		}
+		it.InlinePred = inlineHelpers(c, "lib/value")
 		ord := func(it *absint.Interp, a []absint.Val) int { return it.Order(a[0], a[1]) }
 		it.Models["(time.Time).Equal"] = func(it *absint.Interp, call ssa.CallInstruction, a []absint.Val) (absint.Val, bool) {
 			return absint.Bool(ord(it, a) == 0), true
@@ -586,6 +610,7 @@ func ruleCmp4(c *Ctx) {
 	var bad []string
 	worlds, err := absint.Enumerate(5000, func(w *absint.World) {
 		it := newInterp(c, w)
+		it.InlinePred = inlineHelpers(c, "lib/query", "lib/query.calculateInteger", "lib/query.calculateFloat")
 		var reached string
 		it.OnCall = func(name string, call ssa.CallInstruction, args []absint.Val) {
 			switch name {
